@@ -141,16 +141,73 @@ func (w *World) receiverWrites(m *ssa.Function) []recvWrite {
 		}
 		return false
 	}
+	// a write under a mutex of the component itself (a Lock of a sync.Mutex/RWMutex field of the receiver dominates it, with no
+	// Unlock of that mutex on the way): the component serialises its own state (usage counters behind their own lock)
+	underOwnMutex := func(in ssa.Instruction) bool {
+		fn := in.Parent()
+		byMutex := map[string][2][]ssa.Instruction{}
+		allInstrs(fn, func(x ssa.Instruction) {
+			c := callCommonOf(x)
+			if c == nil || len(c.Args) == 0 {
+				return
+			}
+			if _, isDefer := x.(*ssa.Defer); isDefer {
+				return
+			}
+			f := c.StaticCallee()
+			if f == nil || f.Pkg == nil || f.Pkg.Pkg.Path() != "sync" {
+				return
+			}
+			fa, ok := c.Args[0].(*ssa.FieldAddr)
+			if !ok || !rooted(fa, 0) {
+				return
+			}
+			k := w.AP(fa)
+			e := byMutex[k]
+			switch f.Name() {
+			case "Lock":
+				e[0] = append(e[0], x)
+			case "Unlock":
+				e[1] = append(e[1], x)
+			}
+			byMutex[k] = e
+		})
+		for _, e := range byMutex {
+			locks, unlocks := e[0], e[1]
+			dom := false
+			for _, l := range locks {
+				if instrDominates(l, in) {
+					dom = true
+				}
+			}
+			if !dom {
+				continue
+			}
+			if len(unlocks) > 0 && (PathQuery{Fn: fn, Start: unlocks, Target: func(x ssa.Instruction) bool { return x == in },
+				BlockInstr: func(x ssa.Instruction) bool {
+					for _, l := range locks {
+						if l == x {
+							return true
+						}
+					}
+					return false
+				}}).Find().Found {
+				continue
+			}
+			return true
+		}
+		return false
+	}
 	var out []recvWrite
 	for _, f := range withClosures(m) {
 		allInstrs(f, func(in ssa.Instruction) {
 			switch x := in.(type) {
 			case *ssa.Store:
-				if _, isAlloc := w.resolveAddr(x.Addr).(*ssa.Alloc); !isAlloc && rooted(x.Addr, 0) {
+				if _, isAlloc := w.resolveAddr(x.Addr).(*ssa.Alloc); !isAlloc && rooted(x.Addr, 0) && !underOwnMutex(in) {
 					out = append(out, recvWrite{w.InstrPos(in), "stores to " + w.apAddr(x.Addr)})
 				}
 			case *ssa.MapUpdate:
-				if rooted(x.Map, 0) {
+				if rooted(x.Map, 0) && !underOwnMutex(in) {
 					out = append(out, recvWrite{w.InstrPos(in), "updates the map " + w.AP(x.Map)})
 				}
 			case ssa.CallInstruction:
